@@ -45,6 +45,8 @@ func contentPlan(prop string, tier string, root *simcore.RNG, sinks []string, nq
 			j.Pre = pick(r, []int{1, 83, 84, 134, 5000, 40000, 300000})
 		}
 		j.Name = pick(r, fileNames)
+		j.Reuse = r.Intn(4) == 0
+		j.CloseTwice = r.Intn(5) == 0
 		sc := &Scenario{Prop: prop, Family: "content", Seed: r.Uint64(), Env: genEnv(r), Groups: [][]Job{{j}},
 			Sites: activeSites(r, sink, false), Sched: genSched(r, []string{"consumer", "renderer"})}
 		// two exports into the same format at the same time (separate files)
